@@ -33,7 +33,7 @@ hdr = """# Seeded changes and what the checks do with them
 Each directory holds `patch.diff` (the change, produced by a fresh sub-agent that saw only the property text and a private worktree of /repo),
 `DEMO.md` (its demonstration), `meta.json`, `result.txt.<Cnn>` (the check run with the patch applied to /repo) and the first replay.
 Re-run with `tools/seeded.sh <dir> <Cnn>` (applies the patch, runs the check, reverts /repo and restores the regenerated Gen/ and evidence/ files).
-Round 1: the directories without suffix; rounds 2-9: suffixes `b` to `i`. This table is rebuilt by `tools/seeded_results.py`.
+Round 1: the directories without suffix; rounds 2-10: suffixes `b` to `j`. This table is rebuilt by `tools/seeded_results.py`.
 
 | seed | check | verdict | first verdict / what was strengthened | change | trigger |
 |---|---|---|---|---|---|
